@@ -16,9 +16,15 @@ import (
 type SExpr interface{}
 
 type (
-	SIdent  struct{ Name string }
-	SLit    struct{ Kind token.Token; Val string }
-	SUnary  struct{ Op string; X SExpr }
+	SIdent struct{ Name string }
+	SLit   struct {
+		Kind token.Token
+		Val  string
+	}
+	SUnary struct {
+		Op string
+		X  SExpr
+	}
 	SBinary struct {
 		Op   string
 		X, Y SExpr
@@ -318,35 +324,35 @@ type LoopSpec struct {
 }
 
 type Contract struct {
-	Key        string // ssa function key
-	Header     string
-	File       string
-	Line       int
-	Pkg        string // package path of the contract file
-	Props      []string
-	ParamNames []string // receiver first
-	ResNames   []string
-	Requires   []Clause
-	Ensures    []Clause
-	Defines    []Clause
-	GhostSets  [][2]Clause
+	Key         string // ssa function key
+	Header      string
+	File        string
+	Line        int
+	Pkg         string // package path of the contract file
+	Props       []string
+	ParamNames  []string // receiver first
+	ResNames    []string
+	Requires    []Clause
+	Ensures     []Clause
+	Defines     []Clause
+	GhostSets   [][2]Clause
 	CallAsserts []CallAssert // callassert <callee> <expr>: obligation at every call of <callee> in this function
-	Modifies   []Clause
-	ModAll     bool // modifies *
-	TrackClock bool // opt trackclock: callees' inferred wall-clock effect is applied (C07)
-	Loops      map[int]*LoopSpec
-	Mode       string // "int" or "bv"
-	Panics     string // "abort" | "violation"
-	Trusted    bool   // body not verified (assumed contract)
-	TrustNote  string
-	Inline     bool
-	NoOverflow bool
-	Extern     bool
-	ExtKey     bool
-	Pure       bool // no heap effect at all (modifies nothing) and result determined
-	Lemma      bool
-	IfaceMeth  string // for "interface pkg.I.M" contracts
-	Opts       map[string]string
+	Modifies    []Clause
+	ModAll      bool // modifies *
+	TrackClock  bool // opt trackclock: callees' inferred wall-clock effect is applied (C07)
+	Loops       map[int]*LoopSpec
+	Mode        string // "int" or "bv"
+	Panics      string // "abort" | "violation"
+	Trusted     bool   // body not verified (assumed contract)
+	TrustNote   string
+	Inline      bool
+	NoOverflow  bool
+	Extern      bool
+	ExtKey      bool
+	Pure        bool // no heap effect at all (modifies nothing) and result determined
+	Lemma       bool
+	IfaceMeth   string // for "interface pkg.I.M" contracts
+	Opts        map[string]string
 }
 
 type SpecFunc struct {
